@@ -49,6 +49,9 @@ type ruleJ struct {
 	Ver      int    `json:"ver"`
 	BadOp    bool   `json:"bad_op,omitempty"`
 	Zone     string `json:"zone,omitempty"` // label constraint `zone in [Zone]` (hand-over cases: matched against the real stores)
+	// key type of the manager when a client sends this rule ("table" / "txn": the keys must be memcomparable
+	// encodings, pd-server.key-type; "" = raw): part of what makes the rule content acceptable
+	KT string `json:"kt,omitempty"`
 }
 type groupJ struct {
 	ID       string `json:"id"`
@@ -139,8 +142,63 @@ func (r ruleJ) coq() string {
 		role = "BadRole"
 	}
 	return fmt.Sprintf("(Rule %s %s %s %s %s %s %s %s %s %s None)", bs(r.G), bs(r.I), coqfmt.Z(int64(r.Index)), coqfmt.Bool(r.Override),
-		s, e, role, coqfmt.Z(int64(r.Count)), coqfmt.Z(int64(r.Ver)), coqfmt.Bool(ok1 && ok2 && !r.BadOp))
+		s, e, role, coqfmt.Z(int64(r.Count)), coqfmt.Z(int64(r.Ver)), coqfmt.Bool(ok1 && ok2 && !r.BadOp && r.keysEncoded()))
 }
+// memDecodable: b starts with a memcomparable byte string (groups of 8 data bytes + marker; marker 0xff =
+// more groups follow, 0xff-n = the last n data bytes are zero padding). Written from the format, not from
+// pkg/codec.
+func memDecodable(b []byte) bool {
+	for {
+		if len(b) < 9 {
+			return false
+		}
+		pad := int(0xff - b[8])
+		if pad > 8 {
+			return false
+		}
+		if pad != 0 {
+			for _, v := range b[8-pad : 8] {
+				if v != 0 {
+					return false
+				}
+			}
+			return true
+		}
+		b = b[9:]
+	}
+}
+
+// memEncode: the memcomparable encoding of raw (order preserving)
+func memEncode(raw []byte) []byte {
+	var out []byte
+	for i := 0; i <= len(raw); i += 8 {
+		n := len(raw) - i
+		if n >= 8 {
+			out = append(out, raw[i:i+8]...)
+			out = append(out, 0xff)
+			continue
+		}
+		out = append(out, raw[i:]...)
+		out = append(out, make([]byte, 8-n)...)
+		out = append(out, byte(0xff-(8-n)))
+	}
+	return out
+}
+
+// keysEncoded: in key type table / txn a non-empty key must be an encoded one
+func (r ruleJ) keysEncoded() bool {
+	if r.KT != "table" && r.KT != "txn" {
+		return true
+	}
+	for _, h := range []string{r.Start, r.End} {
+		b, err := hex.DecodeString(h)
+		if err == nil && len(b) > 0 && !memDecodable(b) {
+			return false
+		}
+	}
+	return true
+}
+
 func rulesCoq(rs []ruleJ) string {
 	xs := make([]string, len(rs))
 	for i, r := range rs {
@@ -321,6 +379,7 @@ func dump(m *placement.RuleManager) dumpInfo {
 
 // ---------- the world ----------
 type world struct {
+	keyType string // pd-server.key-type of the cases of the keytype class
 	kv       *kvx13.Base
 	st       *core.Storage
 	live     *placement.RuleManager
@@ -553,6 +612,9 @@ func (w *world) exec(o opJ) stepOut {
 					o.Unmatched = append(o.Unmatched, ru.Ver)
 				}
 			}
+		}
+		if w.keyType != "" { // as every handler of the HTTP API does before it calls the manager
+			w.live.SetKeyType(w.keyType)
 		}
 		err = callUpdate(w.live, o)
 		writes = w.kv.Take()
@@ -1420,7 +1482,79 @@ type caseJ struct {
 	Stream string `json:"stream"`
 	Etcd   bool   `json:"etcd,omitempty"` // run on PD's etcd kv.Base (embedded etcd) instead of the memory kv
 	Server bool   `json:"server,omitempty"` // run on a real pd server: restarts are RaftCluster.Stop/Start or another member's manager
+	KeyType string `json:"key_type,omitempty"` // pd-server.key-type (table / txn): clients' keys are validated as memcomparable encodings
 	Ops    []opJ  `json:"ops"`
+}
+
+// ---------- key type table / txn: rule keys are memcomparable encodings of 3..17 raw bytes ----------
+// the raw keys behind the pool "", 10, 20, 2010, 30, 40, 50 (same order); 8 raw bytes and more take two
+// or three encoding groups, the last one is a TiDB table prefix (t + table id 5)
+var rawKeyPool = map[string][]byte{
+	"10":   {0x10, 0x01, 0x02},
+	"20":   {0x20, 0, 0xff, 3, 4, 5, 6, 7},
+	"2010": {0x20, 0x10, 0xff, 0xff, 0, 0, 9, 9, 1},
+	"30":   {0x30, 1, 2, 3, 4, 5, 6, 7, 8, 9, 0xff, 0},
+	"40":   {0x40, 0xff, 0xff, 0xff, 0xff, 0xff, 0xff, 0xff, 0xff, 1, 2, 3, 4, 5, 6, 7},
+	"50":   {0x74, 0x80, 0, 0, 0, 0, 0, 0, 5},
+}
+
+func genKeyType(r *rng.R) caseJ {
+	c := caseJ{Stream: "keytype", KeyType: []string{"table", "txn"}[r.Intn(2)]}
+	g := &gen{r: r, known: map[[2]string]ruleJ{{"pd", "default"}: {G: "pd", I: "default", Role: "voter", Count: 3}}}
+	enc := func(ru *ruleJ) {
+		ru.KT = c.KeyType
+		if r.Pct(8) { // a raw key sent to an encoded-mode cluster: refused
+			return
+		}
+		if raw, ok := rawKeyPool[ru.Start]; ok {
+			ru.Start = hex.EncodeToString(memEncode(raw))
+		}
+		if raw, ok := rawKeyPool[ru.End]; ok {
+			ru.End = hex.EncodeToString(memEncode(raw))
+		}
+	}
+	c.Ops = append(c.Ops, opJ{Kind: "restart", MaxReplicas: 3})
+	n := 6 + r.Intn(10)
+	for k := 0; k < n; k++ {
+		o := g.next(false)
+		o.FaultN = 0
+		if o.Kind == "initfail" {
+			o = opJ{Kind: "restart", MaxReplicas: 3}
+		}
+		if o.Rule != nil {
+			ru := *o.Rule
+			enc(&ru)
+			o.Rule = &ru
+		}
+		for i := range o.Rules {
+			enc(&o.Rules[i])
+		}
+		for i := range o.Batch {
+			if o.Batch[i].Add != nil {
+				ru := *o.Batch[i].Add
+				enc(&ru)
+				o.Batch[i].Add = &ru
+			}
+		}
+		if o.Bundle != nil {
+			b := *o.Bundle
+			b.Rules = append([]ruleJ(nil), b.Rules...)
+			for i := range b.Rules {
+				enc(&b.Rules[i])
+			}
+			o.Bundle = &b
+		}
+		for i := range o.Bundles {
+			o.Bundles[i].Rules = append([]ruleJ(nil), o.Bundles[i].Rules...)
+			for j := range o.Bundles[i].Rules {
+				enc(&o.Bundles[i].Rules[j])
+			}
+		}
+		c.Ops = append(c.Ops, o)
+		g.learn(o, true)
+	}
+	c.Ops = append(c.Ops, opJ{Kind: "restart", MaxReplicas: 3})
+	return c
 }
 
 func genCase(r *rng.R) caseJ {
@@ -1447,6 +1581,7 @@ func runCase(R *res.Result, c caseJ, r *rng.R) (caseJ, caseOut) {
 		w = newWorldServer()
 		defer w.stopRC()
 	}
+	w.keyType = c.KeyType
 	var ops, obs []string
 	accepted, rejected, faulted, multi := 0, 0, 0, false
 	var step func(o opJ) stepOut
@@ -1552,6 +1687,7 @@ func main() {
 	n := flag.Int("n", 300, "number of generated cases")
 	out := flag.String("out", ".", "output directory")
 	tier := flag.String("tier", "quick", "")
+	keytypes := flag.Int("keytypes", 0, "number of cases with pd-server.key-type table / txn (rule keys are memcomparable encodings of 3..17 raw bytes)")
 	handovers := flag.Int("handovers", 6, "number of leadership hand-over cases on a real pd server (RaftCluster Stop/Start, another member's updates in between)")
 	large := flag.Int("large", 3, "number of large-index runs (1500..3500 rules, brute-force oracle on the Go side)")
 	overlaps := flag.Int("overlaps", 15, "number of cases with overlapping updates (one parked inside its storage write)")
@@ -1564,7 +1700,7 @@ func main() {
 	log.ReplaceGlobals(zap.NewNop(), nil)
 
 	R := res.New("C13", *seed, *tier)
-	R.Rule = "streams: bigload (restart after > 100 / > 200 rules and > 100 groups whose ids form strict-prefix chains, on the memory kv and on PD's etcd kv.Base), handover (a real pd server: this member's RaftCluster is stopped, another member's RuleManager accepts updates on the same storage, the RaftCluster is started again on the same object), overlap (update A parked inside its first storage write while update B is issued: B must wait, the outcome is A then B), faultsweep (a storage failure at EACH write of a multi-write update, before/after, then the retry), and random histories of 6..20 operations (SetRule 30%, DeleteRule 12%, SetRules 6%, Batch 10% incl. delete-by-prefix, SetRuleGroup 13%, " +
+	R.Rule = "streams: keytype (-keytypes: the manager is in key type table / txn as the HTTP API sets it, rule keys are memcomparable encodings of 3..17 raw bytes, 8% raw keys that must be refused), bigload (restart after > 100 / > 200 rules and > 100 groups whose ids form strict-prefix chains, on the memory kv and on PD's etcd kv.Base), handover (a real pd server: this member's RaftCluster is stopped, another member's RuleManager accepts updates on the same storage, the RaftCluster is started again on the same object), overlap (update A parked inside its first storage write while update B is issued: B must wait, the outcome is A then B), faultsweep (a storage failure at EACH write of a multi-write update, before/after, then the retry), and random histories of 6..20 operations (SetRule 30%, DeleteRule 12%, SetRules 6%, Batch 10% incl. delete-by-prefix, SetRuleGroup 13%, " +
 		"DeleteRuleGroup 5%, SetGroupBundle 8%, SetAllGroupBundles 4%, DeleteGroupBundle 4%, restart 3%, foreign storage writes 5% in the " +
 		"malformed stream = 15% of the cases) over 4 groups x 5 rule ids, key ranges from the pool {'',10,20,2010,30,40,50} (whole space 50%, " +
 		"unbounded 25%, bounded 25%), 8% invalid rule contents, a storage fault at write 1..3 (before/after) on 14% of the updates, retried " +
@@ -1642,6 +1778,9 @@ func main() {
 		}
 		for k := 0; k < *handovers; k++ {
 			emit(genHandover(master.Fork(uint64(6000000+k))), nil)
+		}
+		for k := 0; k < *keytypes; k++ {
+			emit(genKeyType(master.Fork(uint64(7000000+k))), nil)
 		}
 		if theServer != nil {
 			theServer.Close()
